@@ -116,8 +116,13 @@ def main():
             if viol:
                 break
         if tests and not any(c["detected"] for c in rec["checks"].values()):
-            r = sh(["cargo", "test", "--workspace", "--no-fail-fast", "--offline"], cwd=str(WT), env=dict(os.environ, CARGO_NET_OFFLINE="true"))
-            rec["tests_fail"] = "test result: FAILED" in r.stdout or r.returncode != 0
+            try:
+                r = subprocess.run(["setsid", "cargo", "test", "--workspace", "--no-fail-fast", "--offline"], cwd=str(WT), stdout=subprocess.PIPE,
+                                   stderr=subprocess.STDOUT, text=True, env=dict(os.environ, CARGO_NET_OFFLINE="true"), timeout=400)
+                rec["tests_fail"] = "test result: FAILED" in r.stdout or r.returncode != 0
+            except subprocess.TimeoutExpired:
+                rec["tests_fail"] = True   # the suite hangs: it notices
+                os.system("ps -eo pid,args | grep '[w]t/own2/target' | awk '{print $1}' | xargs -r kill -9")
             print(name, "baseline tests:", "FAIL (suite catches it)" if rec["tests_fail"] else "pass", flush=True)
         with OUT.open("a") as fh:
             fh.write(json.dumps(rec) + "\n")
